@@ -353,6 +353,11 @@ impl Check for C05 {
                     if !still && !terminal_of_gen.contains_key(&generation) {
                         terminal_of_gen.insert(generation, "quorum-reached".into());
                     }
+                    // a terminal event ends the kad query: nothing may stay registered for it (a later read of the key
+                    // would attach to the dead query and never get an outcome)
+                    if still && !matches!(other, Ev::Found { .. }) {
+                        cx.violation("query-still-pending-after-its-terminal-event", format!("the pending entry of the query survived its terminal event {other:?}; later reads of the key attach to it and wait for ever"), json!({"event": format!("{other:?}"), "kind": format!("{kind:?}"), "quorum": q, "versions": nver}));
+                    }
                 }
             }
         }
